@@ -169,7 +169,7 @@ func c01ShareBody(p *chk.Prog, r *chk.Report) {
 			others = f.ObjOf(apps[0].Node.(*ast.AssignStmt).Lhs[0])
 		}
 	}
-	soleTenant := func(ft chk.Fact) bool { return false }
+	soleTenant := chk.GNever()
 	if others != nil {
 		soleTenant = g.GPat(false, "len(O) > 0", chk.H("O", f.IsObj(others)))
 	}
@@ -210,7 +210,7 @@ func c01ShareBody(p *chk.Prog, r *chk.Report) {
 			return r1 != nil && r1 == r2 && i1 == 0 && i2 == 1 &&
 				f.MatchWith("RECV.portsInUse[IP][P]", r1, chk.H("IP", ip), chk.H("P", rangeVal(f, rs))) != nil
 		}
-		if o, wy := g.LoopForall(rs, guard); o {
+		if o, wy := g.LoopForall(rs, chk.GFunc(guard)); o {
 			// every nil return with a key present comes after this loop
 			loop, _, _ := g.RangeBlocks(rs)
 			w := (&chk.Walk{G: g, Hit: nilRet, Cut: func(b *cfgBlock, k int) bool {
